@@ -118,6 +118,11 @@ func VerifH_C19_esFraming() {
 		hdr := insaneJSON.Spawn()
 		herr := hdr.DecodeBytes(lines[2*i])
 		vf.Assert(herr == nil, "action-line-is-valid-json")
+		raw := false
+		for _, c := range lines[2*i] {
+			raw = vf.Or(raw, c < 0x20)
+		}
+		vf.Assert(!raw, "action-line-has-no-raw-control-character") // RFC 8259: must be escaped
 		if herr == nil {
 			vf.Assert(hdr.Dig("index", "_index").AsString() == wantIndex[i], "action-line-names-the-events-index")
 		}
